@@ -418,7 +418,8 @@ impl RaftStorage<ClientRequest, ClientResponse> for FileStore {
         let split_off_index = if let Some(v) = delete_through {
             v + 1
         } else {
-            0
+            //None: the snapshot covers the whole log, every entry is to be deleted
+            u64::MAX
         };
         self.log_manager
             .send(RaftLogManagerRequest::SplitOff(split_off_index))
